@@ -1436,6 +1436,10 @@ SPECS["C05"]["theorems"] += [
     "Woodpile.Props.C05S.record_slices_live",
     "Woodpile.Props.C05S.record_guarded",
     "Woodpile.Props.C05S.reader_chunks_live",
+    "Woodpile.Props.C05S.pump_world_agrees",
+    "Woodpile.Props.C05S.chunker_new_rel",
+    "Woodpile.Props.C05S.chunker_world_agrees",
+    "Woodpile.Props.C05S.data_chunk_live",
 ]
 SPECS["C05"]["level_text"] += (' Props/C05S (track rdrworld): StreamChunker chunks and StreamReader records. Model/StreamWorld.lean models pump / '
     'next_record_bytes on the structural World (the arena is a detached ByteArena or the decoder iovec\'s own; StreamChunker::buf and every Chunk::Data '
@@ -1449,4 +1453,9 @@ SPECS["C05"]["level_text"] += (' Props/C05S (track rdrworld): StreamChunker chun
     'pointer), record_guarded, reader_chunks_live. WHAT bytes are returned stays with C06/C08 (byte-level model); that the world-level model returns the same '
     'bytes AND places every slice where the real code does is checked by the new correspondence families chunkerw / readerw (same op vocabulary and lines as '
     'chunker / reader plus at=/R slices= placements through the H1 registry and the live set after every call; held-chunk containment + content oracle), not '
-    'proved: the refinement theorem pumpW ⊑ Stream.pump is an open item.')
+    'proved for the READER. For the CHUNKER it is proved (Proofs/StreamWorldRef): pump_world_agrees / chunker_world_agrees - every history of a new '
+    'chunker and its caller (pumps with any block sizes on any arena, interleaved with the caller dropping chunks; any stream / reader script; any world) '
+    'returns pump by pump exactly the chunks of the byte-level chunker Stream.pumpSeq of C08 (verdicts, offsets, BYTES) and leaves the reader where it leaves '
+    'it; data_chunk_live: the handle of a Data chunk names a non-empty detached slice holding those bytes, live, below the bump pointer. Open: nextW refines '
+    'Stream.next (missing: decode_anchored of a chunk keeps the chunker-buffer relation CRel - a heap-frame lemma for a second held slice - and the iovec then '
+    'holds Stream.Rec.bytes - SimV for a chunk of a foreign AnchoredSlice).')
